@@ -551,7 +551,10 @@ def _iterdsl_programs(run, path, name, limit=None, seed=1, alt_sources=False):
         lines = pri + rest[:max(0, limit - len(pri))]
     ps = progs.ProgSet(run, name, prelude=gi.USER_PRELUDE if alt_sources else "")
     for k_line, r in enumerate(lines):
-        body, exp, model = gi.case(r)
+        cs = gi.case(r)
+        if cs is None:
+            continue
+        body, exp, model = cs
         guard = gi.std_guard_applies(r)
         rec = {"m": "IterDsl", "mac": "iter-dsl", "chain": [a["k"] + ("(%d)" % a["n"] if a["k"] in ("map", "skip", "take") else "") for a in r["chain"]],
                "cons": r["cons"], "known": r["known"], "model": "K:" + model, "expected": exp}
@@ -567,7 +570,7 @@ def _iterdsl_programs(run, path, name, limit=None, seed=1, alt_sources=False):
             return kk == exp
         ps.add(body, "K:" + exp, rec, accept=accept)
         # hygiene: take / skip arguments written with a caller-side constant named like a plausible macro internal
-        if alt_sources and any(a["k"] in ("take", "skip") for a in r["chain"]) and k_line % 3 == 0:
+        if alt_sources and any(a["k"] in ("take", "skip") for a in r["chain"]) and k_line % 3 == 0 and not gi.has_state(r):
             nm = HYGIENE_NAMES[(k_line // 3) % len(HYGIENE_NAMES)]
             hbody, hexp, hmodel = gi.case(r, hyg=nm)
             hrec = dict(rec, hygiene=nm)
